@@ -29,14 +29,8 @@ pub struct ModuleNamespace {
     /// Cached binding resolutions for each export name.
     /// Populated once during namespace creation; bindings are immutable after linking.
     ///
-    /// SAFETY: Every `Module` inside a `ResolvedBinding` is a transitive dependency
-    /// of the parent `module` field (which IS traced). Those modules are reachable
-    /// through `SourceTextModule::loaded_modules` / `SyntheticModule`, so tracing
-    /// them again here would be redundant. Skipping the trace avoids walking the
-    /// entire hashmap on every GC cycle. This is a performance optimization:
-    /// our GC already ignores pointers that were already traced, but this avoids
-    /// a lookup to check if the pointer is alive. The logic is correct either way.
-    #[unsafe_ignore_trace]
+    /// NOTE: this must be traced: a handle that the collector never sees inside the heap
+    /// is counted as a root, which would keep the module graph (and its realm) alive forever.
     resolved_bindings: FxHashMap<JsString, ResolvedBinding>,
 }
 
